@@ -9,7 +9,7 @@
    Written once over a record of operations (Base/Ops.v): executed at Z (exact) and Q (reduced), proved over
    an abstract commutative ring / over R.  Matrices are lists of rows; reading outside a list yields 0.
    Square roots and LAPACK answers never appear here: they are arguments ("answer tape").  Definitions only. *)
-From Coq Require Import List Arith Bool.
+From Coq Require Import List Arith Bool ZArith.
 From TLV Require Import Base.Shape Base.PyList Base.Tensor Base.BigSum Base.Ops.
 Import ListNotations.
 
@@ -289,3 +289,123 @@ Definition cp_flip_sign_api (is_class : bool) (summ : list F -> F) (w : option (
   : res (list F * list (mat F)) :=
   cp_flip_sign Op summ (weights_or_ones w fs) fs mode.
 End M3.
+
+(* ================================================================== round 3: list form of cp_permute_factors, orthonormality,
+   dense TT-matrices, Python mode numbers, aligned component order *)
+Section M4.
+Context {F : Type} (Op : fops F).
+Local Notation fz := (f0 Op).
+Local Notation fone := (f1 Op).
+Local Notation "a *f b" := (fmul Op a b) (at level 40, left associativity).
+(* ------------------------------------------------------------------ cp_permute_factors, list form:
+   for i: col = assignment_i (oracle); permuted[i].factors[f] = factors[f][:, col]; permuted[i].weights = weights[col] *)
+Fixpoint cp_permute_list (ps : list (list nat)) (ts : list (list F * list (mat F))) : res (list (list F * list (mat F))) :=
+  match ps, ts with
+  | [], [] => Ok []
+  | p :: ps', t :: ts' =>
+      match cp_permute Op p (fst t) (snd t), cp_permute_list ps' ts' with
+      | Ok t', Ok rest => Ok (t' :: rest)
+      | _, _ => Err
+      end
+  | _, _ => Err
+  end.
+
+(* ------------------------------------------------------------------ orthonormal columns: P^T P = I *)
+Definition gram (P : mat F) (a b : nat) : F := sumn Op (length P) (fun t => mget Op P t a *f mget Op P t b).
+Definition orthob (eqb : F -> F -> bool) (n : nat) (P : mat F) : bool :=
+  forallb (fun a => forallb (fun b => eqb (gram P a b) (if Nat.eqb a b then fone else fz)) (seq 0 n)) (seq 0 n).
+End M4.
+
+Section M5.
+Context {F : Type} (Op : fops F).
+(* ------------------------------------------------------------------ TT-matrix: cores (r_k, m_k, n_k, r_{k+1});
+   tt_matrix_to_tensor has shape (m_1..m_N, n_1..n_N) and entry [i_1..i_N, j_1..j_N] = (prod_k G_k[:, i_k, j_k, :])[0, 0] *)
+Definition core_m2 (G : tensor F) : nat := nth 2 (shape G) 0.
+Definition ttm_shape (cores : list (tensor F)) : list nat := map core_n cores ++ map core_m2 cores.
+Fixpoint zip2 (a b : list nat) : list (list nat) :=
+  match a, b with x :: a', y :: b' => [x; y] :: zip2 a' b' | _, _ => [] end.
+Definition ttm_entry (cores : list (tensor F)) (idx : list nat) : F :=
+  let n := length cores in tt_chain Op cores (zip2 (firstn n idx) (skipn n idx)) 0 0.
+Definition ttm_to_tensor (cores : list (tensor F)) : tensor F := tabulate (ttm_shape cores) (ttm_entry cores).
+End M5.
+
+Section M6.
+Context {F : Type} (Op : fops F).
+Local Notation "a *f b" := (fmul Op a b) (at level 40, left associativity).
+(* ------------------------------------------------------------------ Python mode numbers: -N <= mode < N *)
+Definition norm_mode (n : nat) (m : Z) : option nat :=
+  if ((0 <=? m) && (m <? Z.of_nat n))%Z then Some (Z.to_nat m)
+  else if ((- Z.of_nat n <=? m) && (m <? 0))%Z then Some (Z.to_nat (Z.of_nat n + m)) else None.
+(* cp_mode_dot with a Python mode number.  For a negative mode everything indexes from the end; the contraction
+   `factor = factors.pop(mode); mode = max(mode - 1, 0); factors[mode] *= factor` then lets factor 0 absorb the vector *)
+Definition cp_contract_at (w : list F) (fs : list (mat F)) (v : list F) (k absorb : nat) : res (list F * list (mat F)) :=
+  let A := nth k fs [] in
+  if Nat.eqb (length v) (length A) then
+    match remove_nth k fs with
+    | [] => Err
+    | fs' => Ok (w, set_nth absorb (scale_cols Op (nth absorb fs' []) (vecmat Op v A)) fs')
+    end
+  else Err.
+Definition cp_mode_dot_z (w : list F) (fs : list (mat F)) (x : operand) (mode : Z) (keep_dim : bool)
+  : res (list F * list (mat F)) :=
+  match norm_mode (length fs) mode with
+  | None => Err
+  | Some k =>
+      match x with
+      | OpVec v => if negb keep_dim && (mode <? 0)%Z then cp_contract_at w fs v k 0 else cp_mode_dot Op w fs x k keep_dim
+      | OpMat _ => cp_mode_dot Op w fs x k keep_dim
+      end
+  end.
+Definition tucker_mode_dot_z (core : tensor F) (fs : list (mat F)) (x : operand) (mode : Z) (keep_dim : bool)
+  : res (tensor F * list (mat F)) :=
+  match norm_mode (length fs) mode with
+  | None => Err
+  | Some k => tucker_mode_dot Op core fs x k keep_dim
+  end.
+(* cp_flip_sign with a negative mode: `if jj == mode: continue` never fires, so the target factor is also visited as
+   "current" factor and multiplied by its own signs twice *)
+Fixpoint flip_loop_ns (summ : list F -> F) (R target : nat) (jjs : list nat) (fs : list (mat F)) : list (mat F) :=
+  match jjs with
+  | [] => fs
+  | jj :: rest =>
+      let cs := map (colsign Op) (col_summaries Op summ (nth jj fs []) R) in
+      let fs1 := set_nth target (scale_cols Op (nth target fs []) cs) fs in
+      let fs2 := set_nth jj (scale_cols Op (nth jj fs1 []) cs) fs1 in
+      flip_loop_ns summ R target rest fs2
+  end.
+Definition cp_flip_sign_z (summ : list F -> F) (w : list F) (fs : list (mat F)) (mode : Z) : res (list F * list (mat F)) :=
+  match norm_mode (length fs) mode with
+  | None => Err
+  | Some k =>
+      if (mode <? 0)%Z then
+        let fs' := flip_loop_ns summ (length w) k (seq 0 (length fs)) fs in
+        Ok (map (fabs Op) w, set_nth k (scale_cols Op (nth k fs' []) (map (colsign Op) w)) fs')
+      else cp_flip_sign Op summ w fs k
+  end.
+End M6.
+
+Section M7.
+Context {F : Type} (Op : fops F).
+Local Notation fz := (f0 Op).
+Local Notation fone := (f1 Op).
+Local Notation "a *f b" := (fmul Op a b) (at level 40, left associativity).
+(* ------------------------------------------------------------------ congruence_coefficient / aligned component order
+   all_congruences[i][j] = prod_k |<a_k,i , b_k,j>| / (|a_k,i| |b_k,j|); the column norms are data (tapes);
+   linear_sum_assignment is an oracle: its answer is checked to be an optimal assignment *)
+Fixpoint congr_entry (tA tB : list (list F)) (As Bs : list (mat F)) (i j : nat) : F :=
+  match tA, tB, As, Bs with
+  | na :: tA', nb :: tB', A :: As', B :: Bs' =>
+      fdiv Op (fabs Op (sumn Op (length A) (fun t => mget Op A t i *f mget Op B t j))) (vget Op na i *f vget Op nb j)
+      *f congr_entry tA' tB' As' Bs' i j
+  | _, _, _, _ => fone
+  end.
+Definition assign_score (M : nat -> nat -> F) (p : list nat) : F :=
+  sumn Op (length p) (fun i => M i (nth i p 0)).
+Fixpoint insert_all (x : nat) (l : list nat) : list (list nat) :=
+  match l with [] => [[x]] | y :: l' => (x :: l) :: map (cons y) (insert_all x l') end.
+Fixpoint perms (l : list nat) : list (list nat) :=
+  match l with [] => [[]] | x :: l' => flat_map (insert_all x) (perms l') end.
+Definition is_optimalb (tol : F) (n : nat) (M : nat -> nat -> F) (p : list nat) : bool :=
+  is_permb n p && forallb (fun q => fleb Op (assign_score M q) (fadd Op (assign_score M p) tol)) (perms (seq 0 n)).
+End M7.
+
